@@ -27,11 +27,16 @@ def one_run(args):
         except subprocess.TimeoutExpired as e:
             out = (e.stdout or b'').decode(errors='replace') if isinstance(e.stdout, bytes) else (e.stdout or '')
             rc = -999
-        problems, stats = conc_oracle.check(out)
+        fault_run = bool(int(params[7]) & 64)
+        problems, stats = conc_oracle.check(out, fault_run)
+        if fault_run:
+            # after the injected log-write failure writes fail by design: only liveness is judged on these runs
+            problems = [p for p in problems if p.startswith(('VIOLATION[deadlock]', 'VIOLATION[stuck]'))]
+            stats = dict(stats, fault_runs=1)
         if rc not in (0, 3, 4):
             problems.append('VIOLATION[fault] the process crashed or timed out (rc=%d)' % rc)
         acc = []
-        if os.path.exists(acceptor_path()) and not problems:
+        if os.path.exists(acceptor_path()):
             q = subprocess.run([acceptor_path()], input=out, stdout=subprocess.PIPE, stderr=subprocess.PIPE, text=True, timeout=300)
             acc = [l for l in q.stdout.split('\n') if l.startswith(('MISMATCH', 'VIOLATION'))]
             for l in q.stdout.split('\n'):
@@ -81,6 +86,10 @@ def conc_part(chk, tier, rng, own_tags, scale=1.0):
     # the manual-compaction thread, later close
     for i in range(int((60 if tier == 'quick' else 1500) * scale)):
         jobs.append((cbin, [rng.below(1 << 30), rng.below(1 << 30), rng.below(2), rng.range(3, 5), rng.range(0, 1), rng.range(6, 14), 40000, rng.choice([2, 3, 15, 31])]))
+    # a write(2) to the log fails: background error, every later write fails -- and every waiter must still be woken
+    if 'deadlock' in own_tags or 'stuck' in own_tags:
+        for i in range(int((60 if tier == 'quick' else 1500) * scale)):
+            jobs.append((cbin, [rng.below(1 << 30), rng.below(1 << 30), rng.below(2), rng.range(2, 4), rng.range(0, 1), rng.range(6, 14), rng.choice([40000, 30000, 2000]), 64 + rng.choice([0, 1, 5, 12])]))
     # many short runs of batch writers against snapshot readers: the window between sequence publication and memtable insert
     for i in range(int((240 if tier == 'quick' else 6000) * scale)):
         jobs.append((cbin, [rng.below(1 << 30), rng.below(1 << 30), rng.below(2), 2, 3, 8, 200, 13]))
